@@ -504,7 +504,7 @@ func (ex *Exec) siteOf() (site, pos string, stack []string) {
 		} else if fr.fn.Origin() != nil && fr.fn.Origin().Pkg != nil {
 			p = fr.fn.Origin().Pkg.Pkg.Path()
 		}
-		if strings.Contains(p, ".") && !strings.HasSuffix(p, "zzvrt") { // module path (lal, naza)
+		if strings.Contains(p, "q191201771/lal") && !strings.HasSuffix(p, "zzvrt") && !strings.HasSuffix(p, "zzvkit") { // innermost lal frame
 			site = fr.fn.String()
 			if fr.curInst != nil {
 				pos = ex.prog.Fset.Position(fr.curInst.Pos()).String()
